@@ -17,6 +17,9 @@ conversion_fails = z3.Function("voxel_mesh_conversion_fails", z3.RealSort(), z3.
 
 def register(reg):
     register_maxdist(reg)
+    register_prune_rh(reg)
+    register_buffer_overapprox(reg)
+    register_prune_visibility(reg)
 
     def setup(I, env):
         eng = I.eng
@@ -281,3 +284,630 @@ def register_maxdist(reg):
         )
     )
     reg.trust("visibilityBound (in maxDistanceBetween)", "abstract non-negative bound vb(viewer, seen) on the distance at which `viewer` can see `seen`")
+
+
+# =================================================================================================
+# pruneRelativeHeading (C08: "pruning introduces no new scenes ... leaves non-positional properties untouched")
+#
+# Property-level postcondition: the region the position is conditioned to is a SUBSET of the region the object was
+# placed in -- in all three coordinates (a PolygonalRegion is a polygon at a height z) -- and carries the same
+# preferred orientation.  Shapely geometry is abstract (polygons are heap objects, `&` is intersection).
+
+
+def register_prune_rh(reg):
+    from pyvc.values import Infinity, PDict
+
+    RG = "scenic.core.regions"
+    name = "pruning.pruneRelativeHeading"
+
+    def setup(I, env):
+        eng = I.eng
+        PolyReg = repo_class(f"{RG}:PolygonalRegion")
+        RHR = repo_class("scenic.syntax.relations:RelativeHeadingRelation")
+        basePoly = PObj("Polygon", tag="basePoly")
+        basePoly.within = ()
+        z = eng.fresh_real("base.z")
+        eng.input_syms.append(("base.z", C.Real(), z))
+        orientation = [None, PObj("VectorField", tag="base.orientation")][eng.choose(2, "base region has a preferred orientation?")]
+        base = PObj(PolyReg, tag="base")
+        base.fields.update(polygons=basePoly, z=z, orientation=orientation, name=None)
+        field, tField = PObj("PolygonalVectorField", tag="field"), PObj("PolygonalVectorField", tag="tField")
+        conditioned = []
+
+        def mkobj(tag):
+            o = PObj("Object", tag=tag)
+            pos = PObj("PositionDist", tag=tag + ".position")
+            pos.fields["_conditioned"] = pos
+            pos.fields["conditionTo"] = BuiltinFn("conditionTo", lambda v, o=o: conditioned.append((o, v)))
+            o.fields.update(position=pos, heading=PObj("HeadingDist", tag=tag + ".heading"), _relations=())
+            return o
+
+        obj, target = mkobj("obj"), mkobj("target")
+        lo, hi = eng.fresh_real("rel.lower"), eng.fresh_real("rel.upper")
+        nrel = eng.choose(3, "relative-heading relations of obj")
+        rels = []
+        for j in range(nrel):
+            r = PObj(RHR, tag=f"rel{j}")
+            r.fields.update(target=target, lower=lo, upper=hi)
+            rels.append(r)
+        obj.fields["_relations"] = tuple(rels)
+        scenario = PObj("Scenario", tag="scenario")
+        scenario.fields.update(objects=(obj, target), egoObject=obj)
+        env.vars.update(scenario=scenario, verbosity=0, _base=base, _basePoly=basePoly, _conditioned=conditioned, _obj=obj)
+
+        bounded = eng.choose(2, "distance between the objects bounded?") == 1
+        prunes = eng.choose(2, "feasibleRHPolygon restricts the space?") == 1
+        counter = [0]
+
+        def feasible(I2, *a):
+            if not prunes:
+                return None
+            counter[0] += 1
+            return PObj("Polygon", tag=f"feasible{counter[0]}")
+
+        def intersect(a, b):
+            r = PObj("Polygon", tag=f"({a.tag}&{b.tag})")
+            r.within = (a,) + tuple(getattr(a, "within", ())) + (b,) + tuple(getattr(b, "within", ()))
+            return r
+
+        def binop(I2, sym, a, b):
+            # the engine passes sym=None for the bitwise operators; the only one the carrier applies to polygons is `&`
+            if sym in (None, "&") and isinstance(a, PObj) and a.cls == "Polygon" and isinstance(b, PObj) and b.cls == "Polygon":
+                return intersect(a, b)
+            raise Exception(f"binary operator {sym} on {a!r}, {b!r} not modelled")
+
+        reg.binop_fallback = binop
+        reg.models[f"{P}:matchPolygonalField"] = lambda I2, heading, position: (field, 0, 0) if heading is obj.fields["heading"] else (tField, 0, 0)
+        reg.models[f"{P}:matchInRegion"] = lambda I2, pos: (base, None, pos) if pos is obj.fields["position"] else (None, None, None)
+        reg.models["scenic.core.distributions:needsSampling"] = lambda I2, v: False
+        reg.models[f"{RG}:toPolygon"] = lambda I2, r: basePoly if r is base else None
+        reg.models[f"{P}:maxDistanceBetween"] = lambda I2, sc, a, b: eng.fresh_real("maxDist") if bounded else Infinity(1)
+        reg.models[f"{P}:feasibleRHPolygon"] = feasible
+        reg.models[f"{RG}:Region.uniformPointIn"] = lambda I2, r: ("uniformPointIn", r)
+
+        def polygonal_region_ctor(I2, cls, args, kwargs):
+            """PolygonalRegion(...): the fields are the constructor's arguments, defaults taken from the REAL signature."""
+            r = PObj(cls, tag="newBase")
+            init = I2.find_method(cls, "__init__")
+            bound = I2.bind_args(init, [r] + list(args), dict(kwargs))
+            r.fields.update(polygons=bound.vars["polygon"], z=bound.vars["z"], orientation=bound.vars["orientation"], name=bound.vars.get("name"))
+            return r
+
+        reg.constructors[f"{RG}:PolygonalRegion"] = polygonal_region_ctor
+
+    def post(I, env, outcome):
+        eng = I.eng
+        if outcome[0] != "return":
+            eng.check(f"{name}#no_exception", False)
+            return
+        base, basePoly, cond, obj = env.vars["_base"], env.vars["_basePoly"], env.vars["_conditioned"], env.vars["_obj"]
+        eng.check(f"{name}#ensures.position_conditioned_at_most_once", len(cond) <= 1)
+        for o, v in cond:
+            ok_shape = o is obj and isinstance(v, tuple) and v[0] == "uniformPointIn" and isinstance(v[1], PObj)
+            eng.check(f"{name}#ensures.conditioned_to_a_uniform_point_of_a_region", ok_shape)
+            if not ok_shape:
+                continue
+            nb = v[1]
+            poly = nb.fields.get("polygons")
+            # no new scenes: every point of the new region is a point of the region the object was placed in
+            eng.check(f"{name}#ensures.new_region_polygon_within_base_polygon", poly is basePoly or basePoly in getattr(poly, "within", ()))
+            eng.check(f"{name}#ensures.new_region_at_the_height_of_the_base_region", compare("==", nb.fields.get("z"), base.fields["z"]))
+            # non-positional properties untouched: the orientation drawn from the region is the same field
+            eng.check(f"{name}#ensures.new_region_keeps_the_preferred_orientation", nb.fields.get("orientation") is base.fields["orientation"])
+
+    reg.add(
+        C.Contract(
+            f"{P}:pruneRelativeHeading",
+            params=dict(scenario=C.Const(None), verbosity=C.Const(0)),
+            setup=setup,
+            post=post,
+            replay=replay_prune_rh,
+            note="two objects aligned to polygonal vector fields, the first placed uniformly in a PolygonalRegion at a symbolic height z "
+            "with 0-2 relative-heading relations to the second; shapely polygons abstract (& = intersection)",
+            properties=("C08",),
+        )
+    )
+    reg.trust("shapely (pruneRelativeHeading)", "`&` of polygons is their intersection; matchPolygonalField/matchInRegion/maxDistanceBetween/feasibleRHPolygon abstract (own contracts)")
+
+
+RH_PROGRAM = """
+r1 = PolygonalRegion([0@0, 10@0, 10@10, 0@10], z={z})      # first cell: heading 0 deg
+r2 = PolygonalRegion([20@0, 30@0, 30@10, 20@10], z={z})    # second cell: heading 90 deg
+vf = PolygonalVectorField("Foo", [[r1.polygons, 0], [r2.polygons, 90 deg]])
+half = PolygonalRegion([0@0, 30@0, 30@5, 0@5], z={z})             # the objects are placed in the lower half of the cells only
+union = r1.union(r2).intersect(half)
+ego = new Object in union, facing vf, with visibleDistance 100
+other = new Object in union, facing vf
+require (relative heading of other) >= 60 deg
+require (distance to other) <= 35
+"""
+
+
+def replay_prune_rh(inputs, clause):
+    """The real compiler on a real program: objects placed in a polygon at height z, relative-heading pruning applies;
+    compare the region the position is conditioned to (and generated scenes) with the program compiled without pruning."""
+    import random
+
+    import scenic
+    import scenic.syntax.translator as T
+
+    z = inputs.get("base.z", 5.0)
+    try:
+        z = float(z)
+    except (TypeError, ValueError):
+        z = 5.0
+    if z == 0:
+        z = 5.0
+    src = RH_PROGRAM.format(z=repr(z))
+    old = T.usePruning
+    try:
+        T.usePruning = False
+        random.seed(3)
+        plain = scenic.scenarioFromString(src, mode2D=False)
+        zs_plain = {round(float(plain.generate(maxIterations=2000)[0].objects[0].position.z), 9) for _ in range(3)}
+        random.seed(3)
+        pruned = scenic.scenarioFromString(src, mode2D=False)
+    finally:
+        T.usePruning = old
+    import scenic.core.pruning as RP
+    from scenic.core.vectors import VectorField
+
+    ego = pruned.objects[0]
+    # a preferred orientation on the region the object was placed in (the object itself is `facing vf`)
+    ego.position.region.orientation = VectorField("preferred", lambda pos: 0.5)
+    RP.pruneRelativeHeading(pruned, 0)  # the real pruning pass on the real scenario
+    region = getattr(ego.position._conditioned, "region", None)
+    if region is None or ego.position._conditioned is ego.position:
+        return None  # nothing was pruned
+    zs = {round(float(pruned.generate(maxIterations=2000)[0].objects[0].position.z), 9) for _ in range(3)}
+    if "height" in clause and (abs(float(region.z) - z) > 1e-9 or zs != zs_plain):
+        return (
+            f"`ego = new Object in union, facing vf` with union a PolygonalRegion at z={z}, `require (relative heading of other) >= 60 deg`, "
+            f"`require (distance to other) <= 35`: without pruning the ego is generated at z in {sorted(zs_plain)}, with pruning its position is "
+            f"conditioned to a PolygonalRegion at z={float(region.z)} and it is generated at z in {sorted(zs)}"
+        )
+    base = ego.position.region  # the region the program placed the object in
+    if "orientation" in clause and region.orientation is not base.orientation:
+        return f"the region the position is conditioned to has preferred orientation {region.orientation!r}, the region of the program {base.orientation!r}"
+    if "within_base_polygon" in clause and region.polygons.difference(base.polygons.buffer(1e-9)).area > 1e-9:
+        return f"the region the position is conditioned to ({region.polygons.wkt}) is not contained in the region of the program ({base.polygons.wkt})"
+    return None
+
+
+# =================================================================================================
+# MeshVolumeRegion._bufferOverapproximate (C08: visibility pruning "never reports a satisfiable scenario as infeasible")
+#
+# pruneVisibility intersects the base region with the observer's view region buffered by (radius + offset): sound only
+# if the buffered region CONTAINS every point within `minBuffer` of the view region.  Checked here per axis: the extent
+# of the result covers [mesh.bounds[0] - minBuffer, mesh.bounds[1] + minBuffer] (for the box path this is the whole
+# statement; for the voxel path -- cube structuring element, axes independent -- it is its projection on an axis).
+# The region's `position` is NOT tied to the bounds (a ViewRegion is built with centerMesh=False).
+
+
+def register_buffer_overapprox(reg):
+    from pyvc.builtins_model import NativeModule
+    from pyvc.values import arith
+
+    RG = "scenic.core.regions"
+    name = "regions.MeshVolumeRegion._bufferOverapproximate"
+
+    class NdArr:
+        """numpy array of concrete shape with symbolic elements (1-D: scalars, 2-D: rows); only what the carrier uses"""
+
+        def __init__(self, items):
+            self.items = list(items)
+
+        @property
+        def ndim(self):
+            return 2 if self.items and isinstance(self.items[0], NdArr) else 1
+
+    class Dense:
+        """Dense boolean voxel array, seen along one axis: n cells, the filled cells span [lo, hi]."""
+
+        def __init__(self, n, lo, hi):
+            self.n, self.lo, self.hi = n, lo, hi
+
+    class Affine:
+        """index -> coordinate along the axis: origin + pitch * index"""
+
+        def __init__(self, origin, pitch):
+            self.origin, self.pitch = origin, pitch
+
+    class Shift:
+        def __init__(self, d):
+            self.d = d
+
+    def setup(I, env):
+        eng = I.eng
+        MeshVolume = repo_class(f"{RG}:MeshVolumeRegion")
+        Voxel = repo_class(f"{RG}:VoxelRegion")
+        lo = [eng.fresh_real(f"bounds.lo.{a}") for a in "xyz"]
+        ext = [eng.fresh_real(f"extent.{a}") for a in "xyz"]
+        for e in ext:
+            eng.assume(compare(">", e, 0))
+        hi = [arith("+", l, e) for l, e in zip(lo, ext)]
+        pos = [eng.fresh_real(f"position.{a}") for a in "xyz"]  # e.g. the camera of a ViewRegion: anywhere
+        minBuffer = eng.fresh_real("minBuffer")
+        eng.assume(compare(">=", minBuffer, 0))
+        for nm, v in [("minBuffer", minBuffer)] + [(f"bounds.lo.{a}", v) for a, v in zip("xyz", lo)] + [(f"extent.{a}", v) for a, v in zip("xyz", ext)] + [(f"position.{a}", v) for a, v in zip("xyz", pos)]:
+            eng.input_syms.append((nm, C.Real(), v))
+        pitches = [1, 0.15, 0.3, 0.6]  # the fast path and the pitches pruneVisibility tries (PRUNING_PITCH, doubled)
+        pitch = pitches[eng.choose(len(pitches), "pitch: 1 (bounding box) / 0.15 / 0.3 / 0.6 (voxels)")]
+        eng.input_syms.append(("pitch", C.Const(None), pitch))
+        mesh = PObj("Trimesh", tag="mesh")
+        mesh.fields.update(bounds=NdArr([NdArr(lo), NdArr(hi)]), extents=NdArr(ext))
+        region = PObj(MeshVolume, tag="region")
+        region.fields.update(mesh=mesh, position=tuple(pos), orientation=None)
+        env.vars.update(self=region, minBuffer=minBuffer, pitch=pitch, _lo=lo, _hi=hi, _minBuffer=minBuffer)
+
+        # ---- numpy on the 2x3 bounds array (documented semantics)
+        def np_mean(a, axis=None):
+            assert axis == 0 and isinstance(a, NdArr) and a.ndim == 2
+            rows = a.items
+            return NdArr([arith("/", sum_(r.items[j] for r in rows), len(rows)) for j in range(len(rows[0].items))])
+
+        def sum_(xs):
+            t = 0
+            for x in xs:
+                t = arith("+", t, x)
+            return t
+
+        def np_diff(a, axis=-1):
+            assert axis == 0 and isinstance(a, NdArr) and a.ndim == 2
+            rows = a.items
+            return NdArr([NdArr([arith("-", rows[i + 1].items[j], rows[i].items[j]) for j in range(len(rows[0].items))]) for i in range(len(rows) - 1)])
+
+        def np_pad(a, k):
+            assert isinstance(a, Dense)
+            return Dense(arith("+", a.n, arith("*", 2, k)), arith("+", a.lo, k), arith("+", a.hi, k))
+
+        reg.extra_modules = getattr(reg, "extra_modules", None) or {}
+        reg.extra_modules["numpy"] = NativeModule("numpy", {"mean": BuiltinFn("numpy.mean", np_mean), "diff": BuiltinFn("numpy.diff", np_diff), "pad": BuiltinFn("numpy.pad", np_pad)})
+
+        # ---- voxel grids along the x axis
+        def morph(sign):
+            def f(a, structure=None, iterations=1):
+                assert isinstance(a, Dense) and structure == "cube"
+                from pyvc.values import sv_ite
+
+                k = iterations
+                if sign > 0:  # cannot grow past the array
+                    nlo = arith("-", a.lo, k)
+                    nhi = arith("+", a.hi, k)
+                    return Dense(a.n, sv_ite(compare("<", nlo, 0), 0, nlo), sv_ite(compare(">", nhi, arith("-", a.n, 1)), arith("-", a.n, 1), nhi))
+                return Dense(a.n, arith("+", a.lo, k), arith("-", a.hi, k))
+
+            return BuiltinFn("scipy.ndimage.binary_dilation" if sign > 0 else "scipy.ndimage.binary_erosion", f)
+
+        ndimage = NativeModule("scipy.ndimage", {"binary_dilation": morph(+1), "binary_erosion": morph(-1), "generate_binary_structure": BuiltinFn("generate_binary_structure", lambda rank, conn: "cube")})
+        reg.extra_modules["scipy"] = NativeModule("scipy", {"ndimage": ndimage})
+
+        def encoding(dense):
+            e = PObj("DenseEncoding", tag="encoding")
+            e.fields.update(dense=dense, is_empty=False)
+            return e
+
+        def grid(enc, transform=None):
+            g = PObj("VoxelGrid", tag="voxel grid")
+            g.fields.update(encoding=enc, transform=transform)
+            return g
+
+        tv = NativeModule("trimesh.voxel", {
+            "encoding": NativeModule("trimesh.voxel.encoding", {"DenseEncoding": BuiltinFn("DenseEncoding", encoding)}),
+            "morphology": NativeModule("trimesh.voxel.morphology", {"_dense": BuiltinFn("_dense", lambda enc, rank=3: enc.fields["dense"])}),
+            "VoxelGrid": BuiltinFn("VoxelGrid", grid),
+        })
+        reg.extra_modules["trimesh"] = NativeModule("trimesh", {"voxel": tv})
+        reg.models["trimesh.transformations:translation_matrix"] = lambda I2, v: Shift(I2.iterate(v)[0])
+        reg.global_overrides[f"{RG}:translation_matrix"] = lambda I2: BuiltinFn("translation_matrix", lambda v: Shift(list(I2.iterate(v))[0]))
+
+        def binop(I2, sym, a, b):
+            if isinstance(a, Affine) and isinstance(b, Shift):  # transform @ translation: index i -> origin + pitch * (i + d)
+                return Affine(arith("+", a.origin, arith("*", a.pitch, b.d)), a.pitch)
+            if sym in ("+", "-", "*") and isinstance(a, NdArr) and a.ndim == 1 and not isinstance(b, NdArr):  # broadcast a scalar
+                return NdArr([arith(sym, x, b) for x in a.items])
+            raise Exception(f"binary operator {sym} on {a!r}, {b!r} not modelled")
+
+        reg.binop_fallback = binop
+        reg.iterate_fallback = lambda I2, v, *a, **k: list(v.items) if isinstance(v, NdArr) else (_ for _ in ()).throw(Exception(f"iteration over {v!r} not modelled"))
+        reg.getitem_fallback = lambda I2, v, i, *a: v.items[i] if isinstance(v, NdArr) and isinstance(i, int) else (_ for _ in ()).throw(Exception(f"indexing {v!r} not modelled"))
+
+        def voxel_region(I2, cls, args, kwargs):
+            v = PObj(cls, tag="voxel region")
+            v.fields["voxelGrid"] = kwargs.get("voxelGrid", args[0] if args else None)
+            return v
+
+        reg.constructors[f"{RG}:VoxelRegion"] = voxel_region
+
+        def voxelized(I2, self_, vpitch, lazy=False):
+            """trimesh voxelization (trusted, as documented in the carrier): a grid tight around the mesh, which contains
+            the mesh after ONE dilation: along an axis n >= 1 cells, all of [0, n-1] met, and
+            origin - 1.5 pitch <= bounds.lo, bounds.hi <= origin + (n - 1 + 1.5) pitch"""
+            n = eng.fresh_int("voxels.n")
+            origin = eng.fresh_real("voxels.origin")
+            eng.assume(compare(">=", n, 1))
+            eng.assume(compare("<=", arith("-", origin, arith("*", 1.5, vpitch)), lo[0]))
+            eng.assume(compare("<=", hi[0], arith("+", origin, arith("*", arith("+", n, 0.5), vpitch))))
+            eng.input_syms.append(("voxels.n", C.Int(), n))
+            env.vars["_vpitch"] = vpitch
+            return voxel_region(I2, Voxel, (), dict(voxelGrid=grid(encoding(Dense(n, 0, arith("-", n, 1))), Affine(origin, vpitch))))
+
+        reg.models[f"{RG}:MeshVolumeRegion.voxelized"] = voxelized
+        reg.models["scenic.core.type_support:toVector"] = lambda I2, v, *a, **k: tuple(I2.iterate(v))
+
+        def box_region(I2, cls, args, kwargs):
+            b = PObj(cls, tag="box")
+            b.fields.update(position=kwargs.get("position"), dimensions=kwargs.get("dimensions"))
+            return b
+
+        reg.constructors[f"{RG}:BoxRegion"] = box_region
+
+    def post(I, env, outcome):
+        eng = I.eng
+        if outcome[0] != "return":
+            eng.check(f"{name}#no_exception", False)
+            return
+        res = outcome[1]
+        lo, hi, mb = env.vars["_lo"], env.vars["_hi"], env.vars["_minBuffer"]
+        if isinstance(res, PObj) and getattr(res.cls, "name", None) == "BoxRegion":
+            pos = list(I.iterate(res.fields["position"]))
+            dims = list(I.iterate(res.fields["dimensions"]))
+            for a, ax in enumerate("xyz"):
+                half = arith("/", dims[a], 2)
+                eng.check(f"{name}#ensures.box_covers_every_point_within_minBuffer_of_the_mesh.lower", compare("<=", arith("-", pos[a], half), arith("-", lo[a], mb)))
+                eng.check(f"{name}#ensures.box_covers_every_point_within_minBuffer_of_the_mesh.upper", compare(">=", arith("+", pos[a], half), arith("+", hi[a], mb)))
+            return
+        ok = isinstance(res, PObj) and getattr(res.cls, "name", None) == "VoxelRegion"
+        eng.check(f"{name}#ensures.result_is_a_box_or_a_voxel_region", ok)
+        if not ok:
+            return
+        g = res.fields["voxelGrid"]
+        d, t = g.fields["encoding"].fields["dense"], g.fields["transform"]
+        half = arith("/", t.pitch, 2)
+        low_face = arith("-", arith("+", t.origin, arith("*", t.pitch, d.lo)), half)
+        high_face = arith("+", arith("+", t.origin, arith("*", t.pitch, d.hi)), half)
+        eng.check(f"{name}#ensures.voxels_cover_every_point_within_minBuffer_of_the_mesh.lower", compare("<=", low_face, arith("-", lo[0], mb)))
+        eng.check(f"{name}#ensures.voxels_cover_every_point_within_minBuffer_of_the_mesh.upper", compare(">=", high_face, arith("+", hi[0], mb)))
+        eng.check(f"{name}#ensures.voxels_inside_the_dense_array", sv_and(compare(">=", d.lo, 0), compare("<=", d.hi, arith("-", d.n, 1))))
+
+    reg.add(
+        C.Contract(
+            f"{RG}:MeshVolumeRegion._bufferOverapproximate",
+            params=dict(self=C.Const(None), minBuffer=C.Const(None), pitch=C.Const(None)),
+            setup=setup,
+            post=post,
+            inline=["VoxelRegion.dilation"],
+            replay=replay_buffer_overapprox,
+            note="mesh bounds, extents, region position and minBuffer symbolic; pitch 1 (box path) or one of the pitches pruneVisibility uses "
+            "(0.15, 0.3, 0.6: voxel path); voxel grids seen along one axis (cube structuring element: axes independent); VoxelRegion.dilation is the real code",
+            properties=("C08",),
+        )
+    )
+    reg.trust("voxels (_bufferOverapproximate)", "trimesh voxelization is tight and contains the mesh after one dilation; scipy binary_dilation with the 3x3x3 cube grows the filled cells by one layer per iteration but never past the array; numpy.pad adds empty layers; transform @ translation_matrix(d) shifts indices by d")
+
+
+def replay_buffer_overapprox(inputs, clause):
+    """The real function on a real MeshVolumeRegion built like a ViewRegion (centerMesh=False: position != centre of the mesh):
+    look for a point within minBuffer of the mesh that the buffered region does not contain."""
+    import itertools
+
+    import numpy
+    import trimesh
+
+    from scenic.core.regions import MeshVolumeRegion, VoxelRegion
+    from scenic.core.vectors import Vector
+
+    def f(k, d):
+        try:
+            return float(inputs.get(k, d))
+        except (TypeError, ValueError):
+            return d
+
+    ext = [min(max(f(f"extent.{a}", 2.0), 0.25), 8.0) for a in "xyz"]
+    lo = [max(min(f(f"bounds.lo.{a}", 3.0), 50.0), -50.0) for a in "xyz"]
+    pos = [max(min(f(f"position.{a}", 0.0), 50.0), -50.0) for a in "xyz"]
+    mb = min(max(f("minBuffer", 1.0), 0.0), 6.0)
+    pitch = inputs.get("pitch", 1)
+    pitch = float(pitch) if not isinstance(pitch, str) else float(pitch)
+    cases = [(ext, lo, pos, mb)]
+    if mb < 0.5:
+        cases.append((ext, lo, pos, 1.0))
+    cases.append(([2.0, 2.0, 2.0], [3.0, -1.0, 9.0], [0.0, 0.0, 0.0], 1.0))
+    cases.append(([0.5, 0.5, 0.5], [3.0, -1.0, 9.0], [0.0, 0.0, 0.0], 1.0))
+    for ext, lo, pos, mb in cases:
+        box = trimesh.creation.box(extents=ext)
+        box.apply_translation([l + e / 2 for l, e in zip(lo, ext)])
+        region = MeshVolumeRegion(mesh=box, position=Vector(*pos), centerMesh=False)
+        res = region._bufferOverapproximate(mb, pitch)
+        centre = [l + e / 2 for l, e in zip(lo, ext)]
+        for axis, sign in itertools.product(range(3), (-1, 1)):
+            p = list(centre)
+            p[axis] += sign * (ext[axis] / 2 + 0.98 * mb)
+            pt = Vector(*p)
+            if region.distanceTo(pt) <= mb and not res.containsPoint(pt):
+                kind = type(res).__name__
+                return (
+                    f"MeshVolumeRegion(box of extents {ext} with bounds.lo {lo}, position={tuple(pos)}, centerMesh=False)._bufferOverapproximate({mb}, {pitch}) "
+                    f"returned a {kind} that does not contain {tuple(round(c, 4) for c in p)}, at distance {region.distanceTo(pt):.4f} <= {mb} from the region"
+                )
+    return None
+
+
+# =================================================================================================
+# pruneVisibility (C08: "every scene that ... can be generated without pruning can still be generated with it")
+#
+# An object visible from an observer has some point within the view region; its position is at most `radius` from that
+# point, and the sampled base point at most sup|offset| from the position -- the norm of the FULL 3-D offset (for an
+# object `on` a polygon the offset is mostly vertical; the footprint argument of pruneContainment does not apply).  So
+# the view region must be buffered by at least radius + sup|offset|.
+
+
+def register_prune_visibility(reg):
+    RG = "scenic.core.regions"
+    name = "pruning.pruneVisibility"
+
+    def setup(I, env):
+        eng = I.eng
+        base_kind = ["PolygonalRegion", "MeshVolumeRegion"][eng.choose(2, "base region: polygon / mesh volume")]
+        who = eng.choose(2, "requireVisible (seen from the ego) / visible from another observer")
+        has_offset = eng.choose(2, "position = base point / base point + offset") == 1
+        base = PObj(repo_class(f"{RG}:{base_kind}"), tag="base")
+        base.fields.update(orientation=None, dimensionality=2 if base_kind == "PolygonalRegion" else 3)
+        radius = eng.fresh_real("obj.radius")
+        sup3, sup2 = eng.fresh_real("sup|offset|"), eng.fresh_real("sup|(offset.x, offset.y, 0)|")
+        eng.assume(sv_and(compare(">=", radius, 0), compare(">=", sup2, 0), compare("<=", sup2, sup3)))
+        for nm, v in (("obj.radius", radius), ("sup|offset|", sup3), ("sup|(offset.x, offset.y, 0)|", sup2)):
+            eng.input_syms.append((nm, C.Real(), v))
+        eng.input_syms.append(("base", C.Const(None), base_kind))
+
+        def vector(tag, norm_name):
+            v = PObj("Vector", tag=tag)
+            v.fields.update(x=Opaque(tag + ".x"), y=Opaque(tag + ".y"), z=Opaque(tag + ".z"), norm=BuiltinFn("norm", lambda: Opaque(norm_name)))
+            return v
+
+        offset = vector("offset", "|offset|") if has_offset else None
+        # a planar projection Vector(offset.x, offset.y, 0) built by the carrier has a (possibly) smaller norm
+        reg.constructors["scenic.core.vectors:Vector"] = lambda I2, cls, args, kwargs: vector("offset_2d", "|offset_2d|")
+
+        def support_interval(I2, thing):
+            if isinstance(thing, Opaque) and thing.name == "|offset|":
+                return (0, sup3)
+            if isinstance(thing, Opaque) and thing.name == "|offset_2d|":
+                return (0, sup2)
+            return (None, None)
+
+        reg.models["scenic.core.distributions:supportInterval"] = support_interval
+        reg.models["scenic.core.distributions:needsSampling"] = lambda I2, v: False
+        buffers = []
+
+        def view_region(tag):
+            r = PObj("ViewRegion", tag=tag)
+
+            def buf(q, pitch):
+                buffers.append(q)
+                b = PObj("BufferedRegion", tag=f"{tag} buffered")
+                return b
+
+            r.fields["_bufferOverapproximate"] = BuiltinFn("_bufferOverapproximate", buf)
+            return r
+
+        def mkobj(tag):
+            o = PObj("Object", tag=tag)
+            o.fields.update(requireVisible=False, _observingEntity=None, radius=radius, visibleRegion=view_region(tag + ".visibleRegion"))
+            return o
+
+        ego, obj, observer = mkobj("ego"), mkobj("obj"), mkobj("observer")
+        if who == 0:
+            obj.fields["requireVisible"] = True
+        else:
+            obj.fields["_observingEntity"] = observer
+        pir = PObj("PointIn", tag="point in base")
+        position = PObj("PositionDist", tag="obj.position")
+        conditioned = []
+        position.fields["_conditioned"] = position
+        position.fields["conditionTo"] = BuiltinFn("conditionTo", lambda v: conditioned.append(v))
+        obj.fields["position"] = position
+        egopos = PObj("PositionDist", tag="ego.position")
+        egopos.fields["_conditioned"] = egopos
+        ego.fields["position"] = egopos
+        reg.models[f"{P}:matchInRegion"] = lambda I2, pos: (base, offset, pir) if pos is position else (None, None, None)
+
+        def intersect(other, tag="base"):
+            r = PObj("Region", tag=f"{tag}&{other.tag}")
+            r.fields.update(dimensionality=base.fields["dimensionality"])
+            r.fields["intersect"] = BuiltinFn("intersect", lambda o, t=r.tag: intersect(o, t))
+            return r
+
+        base.fields["intersect"] = BuiltinFn("intersect", intersect)
+        reg.models[f"{RG}:Region.uniformPointIn"] = lambda I2, r: PObj("PointIn", tag=f"point in {r.tag}")
+        reg.models[f"{P}:checkConditionedCycle"] = lambda I2, a, b: False
+        reg.models[f"{P}:percentagePruned"] = lambda I2, a, b: [None, 50.0][eng.choose(2, "percentage pruned computable?")]
+
+        def binop(I2, sym, a, b):
+            if sym == "+" and isinstance(a, PObj) and a.cls == "PointIn" and b is offset:
+                return PObj("PositionSum", tag=f"{a.tag} + offset")
+            raise Exception(f"binary operator {sym} on {a!r}, {b!r} not modelled")
+
+        reg.binop_fallback = binop
+        scenario = PObj("Scenario", tag="scenario")
+        scenario.fields.update(objects=(ego, obj), egoObject=ego)
+        env.vars.update(scenario=scenario, verbosity=0, _buffers=buffers, _radius=radius, _sup3=sup3, _has_offset=has_offset)
+
+    def post(I, env, outcome):
+        eng = I.eng
+        if outcome[0] != "return":
+            return
+        from pyvc.values import arith
+
+        need = arith("+", env.vars["_radius"], env.vars["_sup3"] if env.vars["_has_offset"] else 0)
+        eng.check(f"{name}#ensures.view_region_of_the_observer_is_buffered", len(env.vars["_buffers"]) == 1)
+        for q in env.vars["_buffers"]:
+            eng.check(f"{name}#ensures.view_region_buffered_by_at_least_radius_plus_the_bound_on_the_full_3d_offset", compare(">=", q, need))
+
+    reg.add(
+        C.Contract(
+            f"{P}:pruneVisibility",
+            params=dict(scenario=C.Const(None), verbosity=C.Const(0)),
+            setup=setup,
+            post=post,
+            raises=[C.Raises("InvalidScenarioError", mode="may")],
+            replay=replay_prune_visibility,
+            note="one object placed uniformly in a polygon or a mesh volume (with or without an offset) that must be visible from the ego or from another observer; "
+            "support bounds of |offset| and of its planar projection symbolic (planar <= full); regions abstract",
+            properties=("C08",),
+        )
+    )
+    reg.trust("regions (pruneVisibility)", "intersect/uniformPointIn/_bufferOverapproximate abstract (the latter has its own contract); supportInterval returns a sound upper bound (C05 contracts)")
+
+
+TOWER_PROGRAM = """
+workspace = Workspace(RectangularRegion(0@0, 0, 40, 40))
+ego = new Object at (0, 0, 12), with visibleDistance 3, with viewAngles (360 deg, 180 deg), with width 1, with length 1, with height 1, with allowCollisions True
+tower = new Object on workspace, with width 1, with length 1, with height 10, with requireVisible True, with allowCollisions True
+"""
+
+
+def replay_prune_visibility(inputs, clause):
+    """Real compiler: an observer at height 12 that sees 3 m, a 1x1x10 tower standing `on` the workspace that must be
+    visible: base points of scenes accepted without pruning must lie in the region the pruned program samples from."""
+    import random
+
+    import scenic
+    import scenic.syntax.translator as T
+    from scenic.core.errors import InvalidScenarioError
+    from scenic.core.vectors import Vector
+
+    old = T.usePruning
+    try:
+        T.usePruning = False
+        random.seed(7)
+        plain = scenic.scenarioFromString(TOWER_PROGRAM, mode2D=False)
+        scenes = [plain.generate(maxIterations=20000)[0] for _ in range(6)]
+        T.usePruning = True
+        try:
+            pruned = scenic.scenarioFromString(TOWER_PROGRAM, mode2D=False)
+        except InvalidScenarioError as e:
+            p = scenes[0].objects[1].position
+            # is the buffer DISTANCE to blame?  If the buffered view region does not even contain a point well within
+            # the correct distance (radius + full offset), the defect is in _bufferOverapproximate (its own contract)
+            egoP, towerP = plain.objects[0], plain.objects[1]
+            q = float(towerP.radius) + (float(p.z) - 0.0)
+            buffered = egoP.visibleRegion._bufferOverapproximate(q, 0.15)
+            if not buffered.containsPoint(Vector(0, 0, 12 - 3 - 0.9 * q)):
+                return None
+            return f"ego at height 12 seeing 3 m, 1x1x10 tower `on workspace` with requireVisible True: satisfiable without pruning (tower at {tuple(round(c, 2) for c in p)}) but compiling with pruning reports: {e}"
+    finally:
+        T.usePruning = old
+    cond = pruned.objects[1].position._conditioned
+    region = getattr(getattr(cond, "object", cond), "region", None)
+    if region is None:
+        return None
+    for sc in scenes:
+        p = sc.objects[1].position
+        basept = Vector(p.x, p.y, 0)
+        if not region.containsPoint(basept):
+            return (
+                f"ego at height 12 seeing 3 m, 1x1x10 tower `on workspace` with requireVisible True: the scene with the tower at {tuple(round(c, 2) for c in p)} "
+                f"is accepted without pruning, but its base point {tuple(round(c, 2) for c in basept)} is outside the region the pruned program samples from ({region})"
+            )
+    return None
